@@ -118,18 +118,6 @@ Fixpoint lookup {A} (k : nat) (m : list (nat * A)) : option A :=
   | (k', v) :: r => if Nat.eqb k k' then Some v else lookup k r
   end.
 
-Definition set_thread (s : state) (t : nat) (th : thread) : state :=
-  {| s_chain := s_chain s; s_cur := s_cur s; s_cfg := s_cfg s; s_cache := s_cache s;
-     s_clients := s_clients s; s_threads := upd_nth t th (s_threads s) |}.
-Definition set_client (s : state) (ci : nat) (c : client) : state :=
-  {| s_chain := s_chain s; s_cur := s_cur s; s_cfg := s_cfg s; s_cache := s_cache s;
-     s_clients := upd_nth ci c (s_clients s); s_threads := s_threads s |}.
-Definition set_cfg (s : state) (v : option head) : state :=
-  {| s_chain := s_chain s; s_cur := s_cur s; s_cfg := v; s_cache := s_cache s;
-     s_clients := s_clients s; s_threads := s_threads s |}.
-Definition set_cache (s : state) (m : list (nat * head)) : state :=
-  {| s_chain := s_chain s; s_cur := s_cur s; s_cfg := s_cfg s; s_cache := m;
-     s_clients := s_clients s; s_threads := s_threads s |}.
 Definition set_cur (s : state) (n : nat) : state :=
   {| s_chain := s_chain s; s_cur := n; s_cfg := s_cfg s; s_cache := s_cache s;
      s_clients := s_clients s; s_threads := s_threads s |}.
@@ -193,61 +181,59 @@ Definition skips (c : client) (th : thread) : bool :=
   match_prefix_patterns (c_nosumdb c) (t_path th).
 
 (* ---- the step function ------------------------------------------------------------------ *)
-Definition step_at (s : state) (t : nat) (th : thread) (c : client) : option (state * label) :=
+(* One step of thread t (record th, on client c) as a function of the shared values it can
+   touch: its client, the configuration file, the cache, the server's current head.
+   None = blocked (initOnce / parCache entry held by another goroutine) or finished. *)
+Definition outcome := (thread * client * option head * list (nat * head) * label)%type.
+
+Definition step_at (t : nat) (th : thread) (c : client) (cfg : option head)
+    (cache : list (nat * head)) (srv : option head) : option outcome :=
   let ci := t_cl th in
   match t_pc th with
   | PStart =>
       if skips c th
-      then Some (set_thread s t (set_pc (set_res th RSkip) PDone), LTau)
-      else Some (set_thread s t (set_pc th PInitGate), LTau)
+      then Some (set_pc (set_res th RSkip) PDone, c, cfg, cache, LTau)
+      else Some (set_pc th PInitGate, c, cfg, cache, LTau)
   | PInitGate =>
       match c_init c with
-      | INot => Some (set_thread (set_client s ci (set_init c (IRunning t))) t (set_pc th PInitKey), LTau)
+      | INot => Some (set_pc th PInitKey, set_init c (IRunning t), cfg, cache, LTau)
       | IRunning _ => None
-      | IDone => Some (set_thread s t (set_pc th PCellGate), LTau)
+      | IDone => Some (set_pc th PCellGate, c, cfg, cache, LTau)
       end
-  | PInitKey => Some (set_thread s t (set_pc th PInitLatest), LReadConfigKey ci)
-  | PInitLatest =>
-      Some (set_thread s t (set_merge th (s_cfg s) true true), LReadConfig ci (s_cfg s))
-  | PMemRead =>
-      Some (set_thread s t (decide (set_lat th (c_mem c))), LTau)
+  | PInitKey => Some (set_pc th PInitLatest, c, cfg, cache, LReadConfigKey ci)
+  | PInitLatest => Some (set_merge th cfg true true, c, cfg, cache, LReadConfig ci cfg)
+  | PMemRead => Some (decide (set_lat th (c_mem c)), c, cfg, cache, LTau)
   | PCheckOld =>
       (* checkTrees(tree, latest) succeeded (honest world) *)
-      Some (set_thread s t (ret (if size (t_msg th) <? size (t_lat th) then WPast else WNow) th), LTau)
+      Some (ret (if size (t_msg th) <? size (t_lat th) then WPast else WNow) th, c, cfg, cache, LTau)
   | PInstall =>
       (* checkTrees(latest, tree) succeeded (honest world); lock and install or re-read *)
       if ohead_eqb (c_mem c) (t_lat th)
-      then Some (set_thread (set_client s ci (set_mem c (t_msg th))) t (ret WFuture th), LTau)
-      else Some (set_thread s t (decide (set_lat th (c_mem c))), LTau)
-  | PReadConfig =>
-      Some (set_thread s t (set_merge th (s_cfg s) false (t_init th)), LReadConfig ci (s_cfg s))
-  | PReadMsg =>
-      Some (set_thread s t (set_pc (set_new th (c_mem c)) PWriteConfig), LTau)
+      then Some (ret WFuture th, set_mem c (t_msg th), cfg, cache, LTau)
+      else Some (decide (set_lat th (c_mem c)), c, cfg, cache, LTau)
+  | PReadConfig => Some (set_merge th cfg false (t_init th), c, cfg, cache, LReadConfig ci cfg)
+  | PReadMsg => Some (set_pc (set_new th (c_mem c)) PWriteConfig, c, cfg, cache, LTau)
   | PWriteConfig =>
-      if ohead_eqb (s_cfg s) (t_msg th)
-      then Some (set_thread (set_cfg s (t_new th)) t (mdone th),
-                 LWriteConfig ci (t_msg th) (t_new th) true)
-      else Some (set_thread s t (set_pc th PReadConfig),
-                 LWriteConfig ci (t_msg th) (t_new th) false)
+      if ohead_eqb cfg (t_msg th)
+      then Some (mdone th, c, t_new th, cache, LWriteConfig ci (t_msg th) (t_new th) true)
+      else Some (set_pc th PReadConfig, c, cfg, cache, LWriteConfig ci (t_msg th) (t_new th) false)
   | PInitEnd =>
-      Some (set_thread (set_client s ci (set_init c IDone)) t
-              (set_pc (set_merge th (t_msg th) true false) PCellGate), LTau)
+      Some (set_pc (set_merge th (t_msg th) true false) PCellGate, set_init c IDone, cfg, cache, LTau)
   | PCellGate =>
       match lookup (t_key th) (c_cells c) with
-      | None => Some (set_thread (set_client s ci (set_cell c (t_key th) (CRunning t))) t
-                        (set_pc th PReadCache), LTau)
+      | None => Some (set_pc th PReadCache, set_cell c (t_key th) (CRunning t), cfg, cache, LTau)
       | Some (CRunning _) => None
-      | Some (CDone r) => Some (set_thread s t (set_pc (set_res th r) PDone), LTau)
+      | Some (CDone r) => Some (set_pc (set_res th r) PDone, c, cfg, cache, LTau)
       end
   | PReadCache =>
-      match lookup (t_key th) (s_cache s) with
-      | Some h => Some (set_thread s t (set_merge (set_data th (Some h) false) (Some h) true false),
+      match lookup (t_key th) cache with
+      | Some h => Some (set_merge (set_data th (Some h) false) (Some h) true false, c, cfg, cache,
                         LReadCache ci (t_key th) (Some h))
-      | None => Some (set_thread s t (set_pc th PReadRemote), LReadCache ci (t_key th) None)
+      | None => Some (set_pc th PReadRemote, c, cfg, cache, LReadCache ci (t_key th) None)
       end
   | PReadRemote =>
-      match nth_error (s_chain s) (s_cur s) with
-      | Some h => Some (set_thread s t (set_merge (set_data th (Some h) true) (Some h) true false),
+      match srv with
+      | Some h => Some (set_merge (set_data th (Some h) true) (Some h) true false, c, cfg, cache,
                         LReadRemote ci (t_key th) h)
       | None => None
       end
@@ -255,24 +241,28 @@ Definition step_at (s : state) (t : nat) (th : thread) (c : client) : option (st
       (* checkRecord fails when id >= latest.N; an honest record has id < size of its head,
          so the model fails (conservatively) whenever the head of the data is beyond memory *)
       if size (t_data th) <=? size (c_mem c)
-      then Some (set_thread s t (set_pc (set_lat th (c_mem c)) PRecHashes), LTau)
-      else Some (set_thread s t (set_pc (set_res (set_lat th (c_mem c)) RErr) PCellEnd), LTau)
+      then Some (set_pc (set_lat th (c_mem c)) PRecHashes, c, cfg, cache, LTau)
+      else Some (set_pc (set_res (set_lat th (c_mem c)) RErr) PCellEnd, c, cfg, cache, LTau)
   | PRecHashes =>
       (* ReadHashes through the tiles of the copied head and the comparison with the record
          hash succeeded (honest world) *)
-      Some (set_thread s t (set_pc (set_res th (ROk (t_key th)))
-                              (if t_wc th then PWriteCache else PCellEnd)), LTau)
+      Some (set_pc (set_res th (ROk (t_key th))) (if t_wc th then PWriteCache else PCellEnd),
+            c, cfg, cache, LTau)
   | PWriteCache =>
       match t_data th with
-      | Some h => Some (set_thread (set_cache s ((t_key th, h) :: s_cache s)) t (set_pc th PCellEnd),
+      | Some h => Some (set_pc th PCellEnd, c, cfg, (t_key th, h) :: cache,
                         LWriteCache ci (t_key th) (t_data th))
       | None => None
       end
   | PCellEnd =>
-      Some (set_thread (set_client s ci (set_cell c (t_key th) (CDone (t_res th)))) t
-              (set_pc th PDone), LTau)
+      Some (set_pc th PDone, set_cell c (t_key th) (CDone (t_res th)), cfg, cache, LTau)
   | PDone => None
   end.
+
+Definition build (s : state) (t : nat) (th : thread) (ci : nat) (c : client) (cfg : option head)
+    (cache : list (nat * head)) : state :=
+  {| s_chain := s_chain s; s_cur := s_cur s; s_cfg := cfg; s_cache := cache;
+     s_clients := upd_nth ci c (s_clients s); s_threads := upd_nth t th (s_threads s) |}.
 
 Definition step (s : state) (t : nat) : option (state * label) :=
   match nth_error (s_threads s) t with
@@ -280,7 +270,11 @@ Definition step (s : state) (t : nat) : option (state * label) :=
   | Some th =>
       match nth_error (s_clients s) (t_cl th) with
       | None => None
-      | Some c => step_at s t th c
+      | Some c =>
+          match step_at t th c (s_cfg s) (s_cache s) (nth_error (s_chain s) (s_cur s)) with
+          | Some (th', c', cfg', cache', l) => Some (build s t th' (t_cl th) c' cfg' cache', l)
+          | None => None
+          end
       end
   end.
 
